@@ -7,16 +7,20 @@ import "fmt"
 // panic) and n > allocation cap (hugealloc path end, a violation under
 // alloc_is_violation). Afterwards 0 <= n <= cap holds on the path and the
 // caller concretises n as before.
-func (m *Machine) symbolicMakeGuard(fr *frame, n Value) {
+func (m *Machine) symbolicMakeGuard(fr *frame, n Value, signed bool) {
 	t, ok := n.(*Term)
 	if !ok {
 		return
 	}
 	w := t.w
-	if m.decideBool(m.tf.Cmp("bvslt", t, m.tf.BV(0, w)), "make size < 0") {
-		m.throwRuntime("makeslice: len out of range")
+	lt := "bvult" // unsigned size types have no negative values
+	if signed {
+		lt = "bvslt"
+		if m.decideBool(m.tf.Cmp("bvslt", t, m.tf.BV(0, w)), "make size < 0") {
+			m.throwRuntime("makeslice: len out of range")
+		}
 	}
-	if m.decideBool(m.tf.Cmp("bvslt", m.tf.BV(uint64(m.cfg.MaxAlloc), w), t), "make size > cap") {
+	if m.decideBool(m.tf.Cmp(lt, m.tf.BV(uint64(m.cfg.MaxAlloc), w), t), "make size > cap") {
 		m.res.noteHugeAlloc(fr.fn.String(), m.cfg.MaxAlloc+1)
 		panic(pathEnd{kind: "hugealloc", msg: fmt.Sprintf("make([]T, n) in %s: symbolic n can exceed allocation cap %d", fr.fn, m.cfg.MaxAlloc)})
 	}
